@@ -254,7 +254,8 @@ def split_known(prop, violations):
 # evidence, replay files, verdict
 
 def write_replay(prop, key, rec, seed, tier):
-    d = os.path.join(env.VERIF, "replays", prop)
+    base = os.environ.get("VERIF_REPLAY_DIR") or (os.path.join(env.VERIF, "replays") if env.REPO == "/repo" else "/root/scratch/replays")
+    d = os.path.join(base, prop)
     os.makedirs(d, exist_ok=True)
     n, msg, case = rec
     body = {"property": prop, "key": key, "message": msg, "count_in_run": n, "seed": seed, "tier": tier, "case": case,
